@@ -258,7 +258,7 @@ def add_traits(prog, rng, backend, n=(1, 2)):
     return count
 
 
-def add_zst_error(prog, rng):
+def add_zst_error(prog, rng, prim_errors=True):
     """A field-less struct (`pub struct VfZst;`), legal only as a Result/Option payload (feature_tests has `MyZst`), used as the Err
     (and sometimes the Ok) type of methods on an existing opaque. Tool-level checks only: the runtime legs have no model for it."""
     opaques = [t for t in prog.types() if t.kind == "opaque" and not t.lifetimes]
@@ -266,8 +266,13 @@ def add_zst_error(prog, rng):
         return False
     host = rng.choice(opaques)
     mod = [m for m in prog.modules if host in m.items][0]
-    mod.extra_src += "    #[diplomat::attr(auto, error)]\n    pub struct VfZst;\n"
-    for k, ret in enumerate([("raw", "Result<(), VfZst>"), ("raw", "Result<%s, VfZst>" % rng.choice(["u8", "f64", "bool", "i32"]))][:rng.randint(1, 2)]):
+    mod.extra_src += "    #[diplomat::attr(auto, error)]\n    pub struct VfZst;\n    pub struct VfDone;\n"
+    rets = [("raw", "Result<(), VfZst>"), ("raw", "Result<%s, VfZst>" % rng.choice(["u8", "f64", "bool", "i32"])),
+            ("raw", "Result<VfDone, VfZst>"), ("raw", "Option<VfDone>")]
+    if prim_errors:
+        rets += [("raw", "Result<VfDone, %s>" % rng.choice(["u8", "u32", "i64"]))]
+    rng.shuffle(rets)
+    for k, ret in enumerate(rets[:rng.randint(1, 3)]):
         m = spec.Method("zst%d" % k, rng.choice([("ref", None), None]), [("n", ("prim", "u8"))] if rng.random() < 0.5 else [], ret)
         m.owner = host
         host.methods.append(m)
@@ -355,4 +360,37 @@ def add_static_opaque_refs(prog, rng):
         m.owner = host
         host.methods.append(m)
         n += 1
+    return n
+
+
+DOC_TYPES = {"Struct": 1, "Enum": 1, "Trait": 1, "Fn": 1, "Macro": 1, "Constant": 1, "Typedef": 1, "Mod": 0,
+             "FnInStruct": 2, "FnInTypedef": 2, "FnInEnum": 2, "FnInTrait": 2, "DefaultFnInTrait": 2, "EnumVariant": 2, "StructField": 2,
+             "AssociatedTypeInEnum": 2, "AssociatedTypeInStruct": 2, "AssociatedTypeInTrait": 2, "AssociatedConstantInEnum": 2,
+             "AssociatedConstantInStruct": 2, "AssociatedConstantInTrait": 2, "EnumVariantField": 3}
+DOC_LINES = ["Does the thing.", "See `other_thing` for details; returns <nothing> & more.", "Quotes: \"double\" and 'single', backslash \\ too.",
+             "Unicode: \u00e9\u20ac\U0001f600 and a tab\there.", "", "# Heading", "A list:", " - item one", " - item two with `code`",
+             "```", "let x = a < b && c > d;", "```", "@param looks like a tag, {@link foo} too", "100% sure; $dollar #hash"]
+
+
+def add_docs(prog, rng, p_item=0.5):
+    """doc comments (markdown, quotes, angle brackets, non-ASCII) and #[diplomat::rust_link(path, DocType[, compact|hidden])] on types and methods,
+    over every DocType with a path long enough for it. Returns the number of decorated items."""
+    n = 0
+
+    def decorate(attrs):
+        nonlocal n
+        n += 1
+        for _ in range(rng.randint(0, 4)):
+            attrs.append("/// " + rng.choice(DOC_LINES))
+        for _ in range(rng.randint(0, 3)):
+            ty = rng.choice(list(DOC_TYPES))
+            path = ["some_crate"] + ["m%d" % k for k in range(rng.randint(0, 2))] + ["Item", "part", "sub"][:DOC_TYPES[ty]]
+            disp = rng.choice(["", "", ", compact", ", hidden"])
+            attrs.append("#[diplomat::rust_link(%s, %s%s)]" % ("::".join(path), ty, disp))
+    for t in prog.types():
+        if rng.random() < p_item:
+            decorate(t.attrs)
+        for m in t.methods:
+            if rng.random() < p_item:
+                decorate(m.attrs)
     return n
